@@ -70,11 +70,14 @@ def run(rep, tier, seed):
             j = R.randint(0, (1 << kq))
             xx = base + Fraction(j, 1 << kq) * Fraction(2) ** u
             extra.append(xx if v > 0 else -xx)
+            yy = base + Fraction(R.randint(1, 6), 7) * Fraction(2) ** u if R.random() < 0.5 else base + Fraction(R.choice([1, 2]), 3) * Fraction(2) ** u
+            extra.append(yy if v > 0 else -yy)
         for x in (vals[:5] + extra):
             if x == 0: continue
             den = x.denominator
-            if den & (den - 1): continue      # dyadic operands only (k=None needs a finite digit string)
-            if kk is None and den.bit_length() > 12: continue
+            dyadic = den & (den - 1) == 0
+            if kk is None and (not dyadic or den.bit_length() > 12): continue   # k=None needs a finite digit string
+            if not dyadic: rep.count('operand:non-dyadic (reaches the core through the round-to-odd intermediate)')
             o = R.choice([e for e in encodings(R, x, x < 0) if e[0] in ('R', 'F', 'Q', 'D')])
             n = None
             # learn how many bits the code asks for with one probe call
